@@ -99,10 +99,12 @@ HeaderSet == CASE Headers = "plain" -> {<<Imp("m2", "", "none")>>}
 \* are common to both variants (Gleam allows `.a` only for such fields): a common field is ONE declaration, declared
 \* by the first variant; the second variant's field names refer to it.
 \* ids: type = ItemBase + i, constructor T = +100, constructor V = +200, field a = +300, field b = +400
+\* The second constructor is spelled V or - state variable v2 - `Ok`, like a constructor of Gleam's prelude: a module may
+\* declare such a constructor, and its own declaration shadows the prelude's in the whole module.
 CtorT == 100  CtorU == 200  FieldA == 300  FieldB == 400
 
-VARIABLES todo, out, frames, pending, budget, imps, items, phase
-vars == <<todo, out, frames, pending, budget, imps, items, phase>>
+VARIABLES todo, out, frames, pending, budget, imps, items, v2, phase
+vars == <<todo, out, frames, pending, budget, imps, items, v2, phase>>
 
 \* grammar symbols: s = symbol, x = string argument, n = integer argument
 Sym(s, x, n) == [s |-> s, x |-> x, n |-> n]
@@ -146,14 +148,15 @@ TypeResolve(name) == IF name = "T" /\ HasType THEN TypeBase
                      ELSE IF name = "L" /\ UnqAt("typealias") # 0 THEN LibBase(UnqMod("typealias")) + OffTypeT
                      ELSE 0
 \* constructors are values of the module scope; the type itself is in the type namespace only
-CtorId(name) == IF ~HasType THEN 0 ELSE IF name = "T" THEN TypeBase + CtorT ELSE IF name = "V" THEN TypeBase + CtorU ELSE 0
+CtorName(x) == IF x = "2" THEN v2 ELSE x      \* grammar symbols call the second constructor "2"
+CtorId(name) == IF ~HasType THEN 0 ELSE IF name = "T" THEN TypeBase + CtorT ELSE IF name = v2 THEN TypeBase + CtorU ELSE 0
 ModuleValue(name) == IF ItemId(name) # 0 THEN ItemId(name) ELSE IF CtorId(name) # 0 THEN CtorId(name) ELSE Imported(name)
 
 Resolve(name) == IF Local(name) # 0 THEN Local(name) ELSE ModuleValue(name)
 
 \* `c` is written whether or not it is imported (unbound otherwise); `d` only when some import declares it
 RefNames == Names \cup {"c"} \cup (IF UnqAt("unqalias") # 0 THEN {"d"} ELSE {})
-Visible  == {n \in Names \cup SpareNames \cup {"c", "d", "T", "V", "A"} : Resolve(n) # 0}
+Visible  == {n \in Names \cup SpareNames \cup {"c", "d", "T", "V", "Ok", "A"} : Resolve(n) # 0}
 \* module accessors in scope for `name.`: every import brings its module in under the last segment of its path, `as q`
 \* under the alias ONLY; AccMod: the module an accessor stands for
 Accessors == {AccOf(imps[k]) : k \in 1..Len(imps)}
@@ -206,7 +209,7 @@ Prods(h) ==
            \* the module's own record type (only when it is declared)
            P(1, "own_ctor_labelled", <<NT("NEEDTYPE"), OPEN("EXPR_CALL"), Sym("OWNCTOR", "T", 0), T("("), Sym("LABEL", "b", 0), T(":"), NT("EXPR"), T(","),
                                       Sym("LABEL", "a", 0), T(":"), NT("EXPR"), T(")"), CLOSE>>),
-           P(1, "own_ctor2_labelled", <<NT("NEEDTYPE"), OPEN("EXPR_CALL"), Sym("OWNCTOR", "V", 0), T("("), Sym("LABEL", "a", 0), T(":"), NT("EXPR"), T(","),
+           P(1, "own_ctor2_labelled", <<NT("NEEDTYPE"), OPEN("EXPR_CALL"), Sym("OWNCTOR", "2", 0), T("("), Sym("LABEL", "a", 0), T(":"), NT("EXPR"), T(","),
                                        Sym("LABEL", "b", 0), T(":"), NT("EXPR"), T(")"), CLOSE>>),
            P(1, "own_field", <<NT("NEEDTYPE"), OPEN("FIELD_ACCESS"), OPEN("EXPR_CALL"), Sym("OWNCTOR", "T", 0), T("("), T("1"), T(","), NT("EXPR"), T(")"), CLOSE,
                                T("."), Sym("FIELDREF", "a", 0), CLOSE>>) }
@@ -236,7 +239,7 @@ Prods(h) ==
            P(1, "pctor_labelled", <<NT("NEEDACC"), NT("PQCTORA"), T("("), Sym("LIBLABEL", "a", 1), T(":"), NT("PAT"), T(")")>>),
            P(1, "pconcat", <<T("\"s\""), T("<>"), NT("BINDER")>>),
            P(1, "p_own_ctor", <<NT("NEEDTYPE"), Sym("OWNCTOR", "T", 1), T("("), Sym("LABEL", "a", 1), T(":"), NT("PAT"), T(","), T(".."), T(")")>>),
-           P(1, "p_own_ctor2", <<NT("NEEDTYPE"), Sym("OWNCTOR", "V", 1), T("("), Sym("LABEL", "b", 1), T(":"), NT("PAT"), T(","), T(".."), T(")")>>),
+           P(1, "p_own_ctor2", <<NT("NEEDTYPE"), Sym("OWNCTOR", "2", 1), T("("), Sym("LABEL", "b", 1), T(":"), NT("PAT"), T(","), T(".."), T(")")>>),
            P(1, "p_own_ctor_pos", <<NT("NEEDTYPE"), Sym("OWNCTOR", "T", 1), T("("), NT("PAT"), T(","), NT("PAT"), T(")")>>) }
     [] OTHER -> {}
 
@@ -246,7 +249,7 @@ Tok(t, r, tg, vis) == [t |-> t, r |-> r, tg |-> tg, vis |-> vis]
 Plain(t) == Tok(t, "kw", 0, {})
 
 Init == /\ todo = <<>> /\ out = <<>> /\ frames = <<>> /\ pending = <<>> /\ budget = Budget
-        /\ imps = <<>> /\ items = <<>> /\ phase = "header"
+        /\ imps = <<>> /\ items = <<>> /\ v2 = "V" /\ phase = "header"
 
 Pick(S) == IF Sim /\ S # {} THEN {RandomElement(S)} ELSE S
 
@@ -277,6 +280,8 @@ HeaderAllowed(h) == \A k \in 1..Len(h) : h[k].u \notin Masked
 Header == /\ phase = "header"
           /\ \E f \in Pick({h \in HeaderSet : HeaderAllowed(h)}), l \in Pick({l \in ItemLists : DistinctNames(l) /\ l[1].k = "fn"}) :
                /\ imps' = f /\ items' = l
+               \* the spelling of the second constructor of the module's own type (if there is one)
+               /\ \E v \in Pick(IF \E i \in 1..Len(l) : l[i].k = "type" THEN {"V", "Ok"} \ Masked ELSE {"V"}) : v2' = v
                /\ todo' = [i \in 1..Len(l) |-> Sym("ITEM", l[i].k, i)]
                /\ out' = IF Len(f) = 0 THEN <<>> ELSE IF Len(f) = 1 THEN ImportToks(f[1]) ELSE ImportToks(f[1]) \o ImportToks(f[2])
                /\ phase' = "body"
@@ -303,7 +308,7 @@ Step ==
                         ELSE IF h.x = "type"
                         THEN <<OPEN("ADT"), T("type"), Sym("ITEMNAME", "T", h.n), T("{"),
                                Sym("DECL", "T", CtorT), T("("), Sym("DECL", "a", FieldA), T(":"), T("Int"), T(","), Sym("DECL", "b", FieldB), T(":"), T("Int"), T(")"),
-                               Sym("DECL", "V", CtorU), T("("), Sym("FIELDALT", "a", FieldA), T(":"), T("Int"), T(","), Sym("FIELDALT", "b", FieldB), T(":"), T("Int"), T(")"),
+                               Sym("DECL", "2", CtorU), T("("), Sym("FIELDALT", "a", FieldA), T(":"), T("Int"), T(","), Sym("FIELDALT", "b", FieldB), T(":"), T("Int"), T(")"),
                                T("}"), CLOSE>>
                         ELSE IF h.x = "alias"
                         THEN <<OPEN("TYPE_ALIAS"), T("type"), Sym("ITEMNAME", "B", h.n), T("="), Sym("OWNTYPEREF", "", 0), CLOSE>>
@@ -318,7 +323,7 @@ Step ==
                /\ UNCHANGED <<out, frames, pending, budget>>
        \* symbols of the module's own record type
        [] h.s = "NEEDTYPE" -> /\ HasType /\ todo' = Rest /\ UNCHANGED <<out, frames, pending, budget>>
-       [] h.s = "DECL" -> /\ Emit(Tok(h.x, "def", TypeBase + h.n, {})) /\ todo' = Rest /\ UNCHANGED <<frames, pending, budget>>
+       [] h.s = "DECL" -> /\ Emit(Tok(CtorName(h.x), "def", TypeBase + h.n, {})) /\ todo' = Rest /\ UNCHANGED <<frames, pending, budget>>
        [] h.s = "OWNTYPEREF" -> /\ Emit(Tok("T", "tref", TypeBase, {})) /\ todo' = Rest /\ UNCHANGED <<frames, pending, budget>>
        [] h.s = "FIELDALT" -> /\ Emit(Tok(h.x, "fieldalt", TypeBase + h.n, {})) /\ todo' = Rest /\ UNCHANGED <<frames, pending, budget>>
        \* a type annotation: the module's own type T, or the library's type of the same name through the accessor
@@ -342,7 +347,8 @@ Step ==
        [] h.s = "LIBLABEL" -> /\ Emit(Tok(h.x, IF h.n = 0 THEN "label" ELSE "plabel", LastQref + (OffFieldA - LibOff.A), {})) /\ todo' = Rest /\ UNCHANGED <<frames, pending, budget>>
        \* a label of an unqualified `A(a: ..)`: denotes the field only if A is the imported constructor
        [] h.s = "UNQLIBLABEL" -> /\ Emit(Tok(h.x, "label", IF Resolve("A") >= LibBase("m2") THEN Resolve("A") + (OffFieldA - LibOff.A) ELSE 0, {})) /\ todo' = Rest /\ UNCHANGED <<frames, pending, budget>>
-       [] h.s = "OWNCTOR" -> /\ Emit(Tok(h.x, IF h.n = 0 THEN "ref" ELSE "pref", CtorId(h.x), IF h.n = 0 THEN Visible ELSE {}))
+       \* "2": the second constructor under its spelling
+       [] h.s = "OWNCTOR" -> /\ Emit(Tok(CtorName(h.x), IF h.n = 0 THEN "ref" ELSE "pref", CtorId(CtorName(h.x)), IF h.n = 0 THEN Visible ELSE {}))
                              /\ todo' = Rest /\ UNCHANGED <<frames, pending, budget>>
        [] h.s = "LABEL" -> /\ Emit(Tok(h.x, IF h.n = 0 THEN "label" ELSE "plabel", TypeBase + (IF h.x = "a" THEN FieldA ELSE FieldB), {}))
                            /\ todo' = Rest /\ UNCHANGED <<frames, pending, budget>>
@@ -392,7 +398,7 @@ Step ==
                /\ todo' = p.r \o Rest
                /\ budget' = budget - p.c
                /\ UNCHANGED <<out, frames, pending>>
-  /\ UNCHANGED <<imps, items, phase>>
+  /\ UNCHANGED <<imps, items, v2, phase>>
 
 Done == phase = "body" /\ todo = <<>>
 
@@ -404,7 +410,7 @@ Done == phase = "body" /\ todo = <<>>
 LibDeclName == <<"a", "c", "A", "C", "k", "T", "A", "a">>      \* by offset: values a c A C k, type T, type A, field a
 DeclName(d) == IF d >= LibBase("m2") THEN LibDeclName[d % 1000]
                ELSE IF d > ItemBase + FieldB THEN "b" ELSE IF d > ItemBase + FieldA THEN "a"
-               ELSE IF d > ItemBase + CtorU THEN "V" ELSE IF d > ItemBase + CtorT THEN "T"
+               ELSE IF d > ItemBase + CtorU THEN v2 ELSE IF d > ItemBase + CtorT THEN "T"
                ELSE IF d > ItemBase THEN items[d - ItemBase].n ELSE out[d].t
 RefRoles == {"def", "spreaddef", "ref", "qref", "impname", "pref", "label", "plabel", "field", "fieldalt", "tref", "qtref"}
 DeclIds == {out[i].tg : i \in {j \in 1..Len(out) : out[j].r \in RefRoles /\ out[j].tg # 0}}
@@ -421,14 +427,14 @@ RenameComplete == Done => \A d \in DeclIds : \A i \in 1..Len(out) :
 CommonFields == IF HasType THEN <<"a", "b">> ELSE <<>>
 \* what is offered after `acc.` for every accessor in scope
 AccTable == {[acc |-> a, mod |-> AccMod(a), base |-> LibBase(AccMod(a)), members |-> LibMembers(AccMod(a))] : a \in Accessors}
-Program == [imp |-> HeaderLabel, imps |-> imps, items |-> items, out |-> out, ren |-> Renames, mods |-> VisibleModules, accs |-> AccTable,
+Program == [imp |-> HeaderLabel, imps |-> imps, items |-> items, v2 |-> v2, out |-> out, ren |-> Renames, mods |-> VisibleModules, accs |-> AccTable,
             fields |-> CommonFields]
 
 \* simulation mode: print the finished program and start over
 Finish == /\ Sim /\ Done
           /\ PrintT(<<"CASE", ToJson(Program)>>)
           /\ todo' = <<>> /\ out' = <<>> /\ frames' = <<>> /\ pending' = <<>> /\ budget' = Budget
-          /\ imps' = <<>> /\ items' = <<>> /\ phase' = "header"
+          /\ imps' = <<>> /\ items' = <<>> /\ v2' = "V" /\ phase' = "header"
 
 Next == Header \/ Step \/ Finish
 Spec == Init /\ [][Next]_vars
